@@ -10,8 +10,8 @@ import (
 	"sync"
 	"time"
 
-	"verifharness/internal/h"
-	"verifharness/internal/jws"
+	"verifharness/pkg/h"
+	"verifharness/pkg/jws"
 
 	"github.com/dunglas/mercure"
 	"go.uber.org/zap"
